@@ -333,7 +333,7 @@ func (sc fScenario) body(ff fFaults) explore.Body {
 
 func fScenarios(thorough bool) []fScenario {
 	var out []fScenario
-	specs := []PolicySpec{SpecDefault}
+	specs := []PolicySpec{SpecDefault, SpecNoCache, SpecShared("lru", 1), SpecSessions("slru", 1)}
 	if thorough {
 		specs = []PolicySpec{SpecDefault, SpecNoCache, SpecShared("lru", 1), SpecShared("slru", 2), SpecSKOnly, SpecIKOnly, SpecSessions("slru", 1)}
 	}
